@@ -394,6 +394,38 @@ def assigned_names(stmts) -> List[str]:
     return out
 
 
+_INPLACE_METHODS = {"append", "extend", "add", "update", "insert", "pop", "remove", "clear", "discard", "setdefault"}
+
+
+def mutated_fields(stmts):
+    """(variable, field) pairs `v.f` that the statements assign, subscript-assign or update through an in-place method."""
+    out = []
+
+    def field_of(node):
+        if isinstance(node, ast.Attribute) and isinstance(node.value, ast.Name):
+            return (node.value.id, node.attr)
+        return None
+
+    def note(x):
+        if x is not None and x not in out:
+            out.append(x)
+
+    for st in stmts:
+        for node in ast.walk(st):
+            targets = []
+            if isinstance(node, ast.Assign):
+                targets = node.targets
+            elif isinstance(node, (ast.AugAssign, ast.AnnAssign)):
+                targets = [node.target]
+            for t in targets:
+                note(field_of(t))
+                if isinstance(t, ast.Subscript):
+                    note(field_of(t.value))
+            if isinstance(node, ast.Call) and isinstance(node.func, ast.Attribute) and node.func.attr in _INPLACE_METHODS:
+                note(field_of(node.func.value))
+    return out
+
+
 def exec_for(engine, ctx, st: ast.For, env: Env):
     it = engine.eval(ctx, st.iter, env)
     if isinstance(it, Obj) and it.cls.lookup("__iter__") is not None:
@@ -458,7 +490,8 @@ def exec_for_invariant(engine, ctx, st: ast.For, env: Env, it, inv):
 
     def inv_clauses(i):
         d = {k: v for k, v in env.vars.items()}
-        d.update(i=i, seq=it, lo=lo, hi=hi, ctx=ctx, carried={k: env.vars[k] for k in modified})
+        d.update(i=i, seq=it, lo=lo, hi=hi, ctx=ctx, carried={k: env.vars[k] for k in modified},
+                 old=getattr(ctx, "entry_ns", None))
         ns = NS(**d)
         return engine.run_spec(ctx, lambda: _as_items(inv(ns)))
 
@@ -468,6 +501,14 @@ def exec_for_invariant(engine, ctx, st: ast.For, env: Env, it, inv):
     # havoc
     for n in modified:
         env.vars[n] = fresh_like(engine, ctx, n, env.vars[n])
+    # fields of materialised (mutable) objects that the body assigns or updates in place are loop-carried as well
+    for (vn, fn) in mutated_fields(st.body):
+        o = env.vars.get(vn)
+        if isinstance(o, Obj) and o.fields is not None and fn in o.fields:
+            kind, _ = engine.field_kind(o.cls, fn)
+            if kind is None:
+                raise EngineLimit("loop body modifies %s.%s which has no declared kind" % (vn, fn))
+            o.fields[fn] = ctx.fresh_kind("loop.%s.%s" % (vn, fn), kind)
     i = ctx.fresh("iter", z3.IntSort())
     ctx.assume(i >= lo)
     which = ctx.choose(2)
